@@ -524,6 +524,28 @@ package badger
 //@   assert[send-error-to-user] before call user#1 : arg0 == cb.err && cb.err != nil
 //@   assert[commit-result-to-user] before call user#2 : arg0 == ret(commit#1) && cb.err == nil
 
+// The sources of an iterator in precedence order: levels from 0 upwards; within level 0 the
+// newest table (last in the list) first; within a deeper level the tables in key order.
+//@ func (*levelsController).appendIterators
+//@   props C21 C01 C05
+//@   light
+//@   assert[levels-in-order] before call appendIterators : arg0 == s.levels[rangeindex + 1] && arg2 == opt
+
+//@ func (*levelHandler).appendIterators
+//@   props C21 C01 C05
+//@   light
+//@   assert[level0-newest-first] before call appendIteratorsReversed : s.level == 0 && arg0 == iters && arg1 == out
+//@   assert[level0-in-list-order] before call append#1 : ret(pickTable#1)
+//@   assert[deeper-levels-concatenated] before call NewConcatIterator : s.level != 0 && arg0 == ret(pickTables#1)
+//@   assert[direction] before call NewConcatIterator : opt.Reverse ? arg1 == table.REVERSED : arg1 == 0
+//@   assert[under-read-lock] before call pickTables : held(s.RWMutex)
+
+//@ func appendIteratorsReversed
+//@   props C21 C01 C05
+//@   light
+//@   loop 1 invariant[backwards] i >= -1 && i < len(th)
+//@   assert[last-table-first] before call NewIterator : arg0 == th[i] && arg1 == opt
+
 // ---- managed mode (C36) ----
 
 //@ func (*DB).NewTransactionAt
